@@ -61,6 +61,11 @@ func (c *Ctx) runtimeSet() (map[*ssa.Function]*ssa.Function, []*ssa.Function) {
 
 func init() {
 	register("C07", "C07.R1", ruleC07R1)
+	propExplanation["C07"] = "Decides the crash clause of the property, not liveness: for every function reachable from the per-connection / per-record entry points (runConnection, the accept loop, the pipeline worker's input/tick/stop handlers; pipeline and parser construction excluded, that is C16) every index and slice expression is classified: " +
+		"bounds check eliminated by the compiler's prove pass; or proved by the facts engine (linear integer facts from dominating guards and edge conditions, Houdini-style loop invariants, preconditions that hold at every live call site, summaries of callee results, lengths of immutable fields, declared struct invariants verified at every store, entailment by Fourier-Motzkin elimination; integer overflow not modelled); " +
+		"or accepted through a reviewed entry that states the invariant and, where visible in code, still requires its premises to be proved (R1). Assumptions used by proofs are contracts whose producer side is checked: schema-sized records and valid locators (R1s), verified configuration values (R1c), the multi-line reader's offsets (R1i, verified at every store), the client-number bound (R1g), the nil-or-256 character table (R1n), " +
+		"LogRewriter results (R4c), io.Reader / read(2) / write(2) byte counts (assumed, stated). Also: no recover() exists (R0); explicit panics and fatal exits reachable per record are reviewed internal invariants (R2); record bytes reach WithLabelValues only through strings.ToValidUTF8 (R3). " +
+		"Not decided: that the listener keeps accepting and surrounding records are delivered, memory exhaustion, panics inside dependencies (regexp, gzip, msgpack, Prometheus other than label validation)."
 }
 
 // f6Reviewed: index/slice expressions accepted on review. Key: function anchor | kind + canonical base
